@@ -582,11 +582,10 @@ class ScipyMinimizeAlgorithm(
         # Easier to pass a Dataset with 1 individual rather than individual times, values
         # to avoid duplicating code in noise model especially
         df = dataset.to_pandas()
-        import pandas as pd
-
-        assert pd.api.types.is_string_dtype(
-            df.index.dtypes["ID"]
-        ), "Individuals ID should be strings"
+        # identifiers may be integers in the data; individual parameters are always keyed by strings
+        df = df.reset_index()
+        df["ID"] = df["ID"].astype(str)
+        df = df.set_index(["ID", "TIME"])
 
         if "joint" in model.name:
             data_type = "joint"
@@ -604,7 +603,7 @@ class ScipyMinimizeAlgorithm(
         )
 
         datasets = {
-            idx: Dataset(data[[idx]], no_warning=True) for idx in dataset.indices
+            idx: Dataset(data[[str(idx)]], no_warning=True) for idx in dataset.indices
         }
 
         # Fetch model internal state (latent pop. vars should be OK)
